@@ -26,10 +26,6 @@ pub struct Ctx<'a> {
     /// parser cannot succeed without buffering more than configured, an Overflow error is accepted
     pub relaxed: bool,
     pub max_chunk: usize,
-    pub cuts: &'a [usize],
-    pub all1: bool,
-    pub pend_mask: u64,
-    pub pend_all: bool,
     /// allowance for structural bytes the parser consumed but that no event has reported yet
     pub slack: usize,
 }
@@ -439,20 +435,8 @@ fn known_triggers(parse: &Parse, cx: &Ctx<'_>) -> Vec<&'static str> {
     if nocl.iter().any(|f| f.content.windows(bare.len()).any(|w| w == &bare[..])) {
         t.push("bare-CR-dashes-boundary-in-content");
     }
-    // a chunk ends exactly after the CRLF-- of a real delimiter and the source then says Pending
-    let mut ends: Vec<(usize, usize)> = Vec::new(); // (offset, index of the next item)
-    if !cx.all1 {
-        for (i, &c) in cx.cuts.iter().enumerate() {
-            ends.push((c, i + 1));
-        }
-    }
-    let gap = |i: usize| cx.pend_all || (i < 64 && (cx.pend_mask >> i) & 1 == 1);
-    if nocl.iter().filter(|f| f.complete).any(|f| {
-        let d4 = f.content_start + f.content.len() + 4;
-        d4 < data.len() && (cx.all1 || ends.iter().any(|&(c, next)| c == d4 && gap(next)))
-    }) {
-        t.push("chunk-ends-after-CRLF-dashes-of-delimiter");
-    }
+    // (the third scanner defect, a buffer holding exactly CRLF--, was fixed in /repo by db3bce7;
+    // it is no longer a known trigger, so its symptoms are reported as ordinary violations)
     if cx.end == EndKind::Eof && matches!(parse.status, Status::Malformed(Where::Content)) {
         if let Some(pf) = parse.partial() {
             if pf.content_length().is_none() && unresolved_cr(data, pf.content_start, cx.boundary) {
